@@ -690,7 +690,8 @@ pub fn run(p: &Params, rep: &mut Report) {
     let layouts: Vec<&str> = if p.thorough {
         vec!["ab cd e", "  a  b ", "abcdefg", "a \n\tb  c", "é 日😀 İ\n", GAPS]
     } else {
-        vec!["ab cd e", "  a  b ", "abcdefg", GAPS]
+        // a short one with multi-byte characters before the gaps: byte and character positions differ
+        vec!["ab cd e", "  a  b ", "abcdefg", "\u{e9} \u{65e5} b", GAPS]
     };
     let limits = [None, Some(0), Some(1), Some(3)];
     let ops = all_variants(&limits);
